@@ -36,6 +36,12 @@ NS_DEGRADED = {k: v for k, v in NS.items()
                             'ct', 's2')}
 
 
+# the namespace of a nested (recursive) rendering of the same template:
+# other numbers and texts, so that a value taken from the wrong rendering
+# shows
+NS_NESTED = dict(NS, vn=8, va='⟦A-nested⟧', vb='⟦B-nested⟧')
+
+
 def depth_of_exits(ast, d=0):
     best = -1
     for n in ast:
@@ -65,7 +71,12 @@ def run(case):
     # ... and in one where the class names are bound to other classes of
     # the same names but another ancestry
     harness.run_impl(src, sx, NS_TWINS, template=tmpl)
-    out_i, w_i, ns_i = harness.run_impl(src, sx, NS, template=tmpl)
+    # ... and while it renders, every call of one of these recorders first
+    # renders the template once more from the top (a template that calls
+    # itself, e.g. from a finally part with a return pending)
+    out_i, w_i, ns_i = harness.run_impl(src, sx, NS, template=tmpl,
+                                        reenter=(('ft', 'fa', 'ff'),
+                                                 NS_NESTED))
     no_m, no_i = harness.norm_outcome(out_m), harness.norm_outcome(out_i)
     if no_m != no_i:
         kind = 'outcome:%s-instead-of-%s' % (no_i[0], no_m[0])
